@@ -201,6 +201,26 @@ def featuresTextWith (keysOrder : List Str) (classes : Option Str) (order : Opti
 def featuresText (classes : Option Str) (order : Option (List Str)) (blocks : Option (List (Str × Str))) : Str :=
   featuresTextWith (sortDedup (keys (blocks.getD []))) classes order blocks
 
+/-- the lib keys of the robofab data (`LibData`, `upconversion.rs:127-137`; all four are removed from the lib) -/
+def robofabHintKey : Str := "org.robofab.postScriptHintData".toList
+def robofabClassesKey : Str := "org.robofab.opentype.classes".toList
+def robofabOrderKey : Str := "org.robofab.opentype.featureorder".toList
+def robofabFeaturesKey : Str := "org.robofab.opentype.features".toList
+
+/-- collections whose iteration order is a function of their contents: what `sortDedup` / `sortEntries`
+    model (`HashMap.keys.sorted` = the keys of a hash map collected into a `Vec` and `.sort()`ed) -/
+def orderedCollections : List String := ["BTreeSet", "BTreeMap", "HashMap.keys.sorted"]
+
+/-! ### what is written from `BTreeMap`s (groups.plist, kerning.plist, contents.plist)
+
+serde serialises a `BTreeMap` by iterating it, i.e. in ascending key order, whatever the insertion
+history; the map is the association list, the written order is `sortEntries`. -/
+
+def writeMap {β : Type} (m : List (Str × β)) : List (Str × β) := sortEntries m
+
+/-- kerning.plist: `KerningSerializer` walks the outer and every inner `BTreeMap` -/
+def writeKerning (k : Kerning) : List (Str × Seconds) := sortEntries (k.map (fun e => (e.1, sortEntries e.2)))
+
 /-- decimal rendering of the counter -/
 def decimal (n : Nat) : Str := (Nat.repr n).toList
 
